@@ -64,6 +64,7 @@ let aset (toks : string list) : string =
        | Err _ -> "ser=err"
        | Panic _ -> raise Aset_panic)
     | [ "p"; bytes ] -> parse_s (parse_b bytes)
+    | [ "q"; bytes ] -> parse_s (parse_b bytes)      (* as p; the harness appends the measured allocation (no field-sized buffer in the model) *)
     | _ -> failwith "aset: bad case"
   with Aset_panic -> "PANIC"
 
